@@ -137,6 +137,9 @@ func Load(repo, verifDir string) (*Loader, *Specs, error) {
 			for k, v := range sub.SFuncs {
 				specs.SFuncs[k] = v
 			}
+			for k, v := range sub.GhostFields {
+				specs.GhostFields[k] = v
+			}
 			specs.Lemmas = append(specs.Lemmas, sub.Lemmas...)
 			specs.Axioms = append(specs.Axioms, sub.Axioms...)
 			specs.Scan = append(specs.Scan, sub.Scan...)
